@@ -314,7 +314,7 @@ func checkC04(e *Env) {
 	})
 
 	// the concurrent flavour of this monitor (C12 is the full treatment)
-	concCalls := e.concurrentSmoke(drv, "C04", e.smokePool("C04", "seed"), e.pick(2, 12), e.pick(25, 100))
+	concCalls := e.concurrentSmoke(drv, "C04", e.smokePool("C04", "seed"), e.pick(2, 12), e.pick(25, 100), e.smokeSeedRef())
 
 	// known-finding witnesses (D3): exact inputs listed in KNOWN_FINDINGS.txt
 	for _, f := range e.KnownKeys() {
